@@ -160,6 +160,18 @@ func vTemplates() []vUpdTemplate {
 		{"REMOVE l[0]", nil, func(p, b vVals) vVals { return vWith(p, "l", vListDel(p["l"], 0)) }},
 		{"REMOVE l[1]", nil, func(p, b vVals) vVals { return vWith(p, "l", vListDel(p["l"], 1)) }},
 		{"REMOVE zz", nil, func(p, b vVals) vVals { return p }},
+		{"REMOVE l[2]", nil, func(p, b vVals) vVals { return p }}, // one past the end: nothing to remove
+		{"REMOVE l[5]", nil, func(p, b vVals) vVals { return p }},
+		{"REMOVE #a", nil, func(p, b vVals) vVals { return vWithout(p, "a") }},
+		{"REMOVE m.#k", nil, func(p, b vVals) vVals { return vWith(p, "m", vDelMember(p["m"], "k")) }},
+		{"SET #a = :v", []string{":v"}, func(p, b vVals) vVals { return vWith(p, "a", b[":v"]) }},
+		{"SET b = #a", nil, func(p, b vVals) vVals {
+			if !has(p, "a") {
+				return nil
+			}
+			return vWith(p, "b", p["a"])
+		}},
+		{"ADD #n :n", []string{":n"}, func(p, b vVals) vVals { return vWith(p, "n", vN(p["n"].N+b[":n"].N)) }},
 		{"ADD n :n", []string{":n"}, func(p, b vVals) vVals { return vWith(p, "n", vN(p["n"].N+b[":n"].N)) }},
 		{"ADD fresh :n", []string{":n"}, func(p, b vVals) vVals { return vWith(p, "fresh", b[":n"]) }},
 		{"ADD s :s", []string{":s"}, func(p, b vVals) vVals {
@@ -245,7 +257,16 @@ func VerifC07Update() {
 	names := []string{"a", "b", "n", "m", "l", "s", "u"}
 	item := vspec.ToItems(pre, names)
 	li := &Language{}
-	err := li.Update(UpdateInput{TableName: "t", Expression: t.text, Item: item, Attributes: vspec.ToItems(b, t.vals)})
+	aliases := map[string]string{}
+	for _, al := range [][2]string{{"#a", "a"}, {"#k", "k"}, {"#n", "n"}} {
+		for i := 0; i+2 <= len(t.text); i++ {
+			if t.text[i:i+2] == al[0] {
+				aliases[al[0]] = al[1]
+				break
+			}
+		}
+	}
+	err := li.Update(UpdateInput{TableName: "t", Expression: t.text, Item: item, Attributes: vspec.ToItems(b, t.vals), Aliases: aliases})
 	want := t.ref(pre, b)
 	if want == nil {
 		nd.Reach("unspecified")
